@@ -84,6 +84,9 @@ type FT struct {
 	afterLock   *State
 	dynSelf     *SpecVal
 	nonFresh    map[string]bool
+	fnWrites    map[string]bool
+	fnWritesAll bool
+	bridged     map[string]bool
 	curGuard    Term
 	unwinding   bool
 }
@@ -305,7 +308,55 @@ func (ft *FT) materialize(v ssa.Value, l *Loc) Term {
 		}
 		return forall(vs, "(! "+eq(app("addrtag", app(q(name), as...)), tag)+" :pattern ("+app(q(name), as...)+"))")
 	}())
+	ft.bridgeInterior(name, l)
 	return app(q(name), args...)
+}
+
+// bridgeInterior: a pointer to an element of a slice of structs (&s[i]) that escapes into a value is read through
+// the per-field heaps F!T.f, the element itself lives in the row heap E!S!T. In the heap the function starts from the
+// two views are the same memory: F!T.f[&s[i]] == s[i].f. The fact is stated for the entry versions only, and only in
+// functions that (syntactically, callees included) write neither view - there the entry versions are the only ones,
+// so a read through the pointer sees the element. Functions that write one of the views get no bridge (reads through
+// such pointers stay unconstrained, as before).
+func (ft *FT) bridgeInterior(addrFn string, l *Loc) {
+	if !strings.HasPrefix(l.key, "E!") || len(l.idx) != 2 || len(l.path) != 0 || isOpaqueInt(l.typ) {
+		return
+	}
+	stt, ok := ft.structOf(l.typ)
+	if !ok || stt.NumFields() == 0 {
+		return
+	}
+	if ft.fnWrites == nil {
+		saved := ft.nonFresh
+		ft.nonFresh = map[string]bool{}
+		all := map[*ssa.BasicBlock]bool{}
+		for _, b := range ft.fn.Blocks {
+			all[b] = true
+		}
+		ft.fnWrites, ft.fnWritesAll = ft.writtenKeys(all)
+		ft.nonFresh = saved
+	}
+	if ft.fnWritesAll || ft.fnWrites[l.key] {
+		return
+	}
+	sname := ft.d.structName(l.typ)
+	ft.d.sortOf(l.typ)
+	for i := 0; i < stt.NumFields(); i++ {
+		f := stt.Field(i)
+		k := fieldKey(l.typ, f)
+		if ft.fnWrites[k] || ft.bridged[addrFn+"|"+k] {
+			continue
+		}
+		if ft.bridged == nil {
+			ft.bridged = map[string]bool{}
+		}
+		ft.bridged[addrFn+"|"+k] = true
+		ft.keySort(k, arraySort("Int", ft.d.sortOf(f.Type())))
+		lhs := sel(ft.get(ft.entry, k), app(q(addrFn), "b", "i"))
+		rhs := app(fieldAcc(sname, i, f.Name()), sel(ft.get(ft.entry, l.key), "b", "i"))
+		ft.assume("true", forall([][2]string{{"b", "Int"}, {"i", "Int"}}, "(! "+eq(lhs, rhs)+" :pattern ("+app(q(addrFn), "b", "i")+"))"))
+		ft.note("interior pointers into " + l.key + " read through " + k + ": entry-state views bridged (function writes neither)")
+	}
 }
 
 func (ft *FT) setVal(v ssa.Value, ts ...Term) { ft.env[v] = ts }
@@ -571,9 +622,13 @@ func (ft *FT) writtenKeys(blocks map[*ssa.BasicBlock]bool) (map[string]bool, boo
 				if a {
 					all = true
 				}
+				// a callee under contract with a modifies clause: at the call its declared frame is applied (memory
+				// that existed before the call and is not named in the clause is unchanged - the callee's own frame
+				// obligations prove it), so in the loop summary the keys it writes only in objects of its own stay fresh
+				declared, hasDecl := ft.declaredFrameKeys(x.Common())
 				for _, k := range ks {
 					keys[k] = true
-					if k != "$next" {
+					if k != "$next" && !(hasDecl && !declared[k]) {
 						ft.nonFresh[k] = true
 					}
 				}
